@@ -91,20 +91,33 @@ Lemma decode_pem_private_key_refuted :
   exists b parsed, decode_pem_private_key Original b parsed = MPanic.
 Proof. exists BlkPKCS8, (Some KEcdh). reflexivity. Qed.
 
-(* an RSA key with a prime factor 1 never passes Validate() *)
-Lemma serialize_key_fixed_no_panic raw unit_prime rsa_valid :
-  (unit_prime = true -> rsa_valid = false) ->
-  serialize_key Fixed raw unit_prime rsa_valid <> MPanic.
+(* an RSA key with a prime factor 1 never passes Validate(); the order of the curve's group fits
+   the curve's byte size (P-256 / P-384 / P-521: n < p < 2^bits) *)
+Lemma serialize_key_fixed_no_panic raw unit_prime rsa_valid ec_d ec_n ec_size :
+  (unit_prime = true -> rsa_valid = false) -> ec_n <= 256 ^ ec_size ->
+  serialize_key Fixed raw unit_prime rsa_valid ec_d ec_n ec_size <> MPanic.
 Proof.
-  intros H. destruct raw as [[]|]; cbn; try discriminate.
-  destruct rsa_valid; cbn; [|discriminate].
-  destruct unit_prime; [specialize (H eq_refl); discriminate | discriminate].
+  intros H Hn. destruct raw as [[]|]; cbn [serialize_key is_fixed andb]; try discriminate.
+  - destruct rsa_valid; cbn; [|discriminate].
+    destruct unit_prime; [specialize (H eq_refl); discriminate | discriminate].
+  - unfold ec_scalar_valid, ec_fits.
+    destruct (negb ((0 <? ec_d) && (ec_d <? ec_n))) eqn:E; [discriminate|].
+    replace (ec_d <? 256 ^ ec_size) with true by lia. discriminate.
 Qed.
 
 Lemma serialize_key_refuted :
   exists raw unit_prime rsa_valid, (unit_prime = true -> rsa_valid = false) /\
-    serialize_key Original raw unit_prime rsa_valid = MPanic.
+    serialize_key Original raw unit_prime rsa_valid 0 0 0 = MPanic.
 Proof. exists (Some RRsaPriv), true, false. split; [reflexivity | reflexivity]. Qed.
+
+(* before the second fix: a P-256 private scalar of 33 bytes *)
+Lemma serialize_key_ec_refuted :
+  exists d n size, n <= 256 ^ size /\ serialize_key Original (Some REcdsaPriv) false true d n size = MPanic.
+Proof. exists (256 ^ 32 + 5), (256 ^ 32 - 1000), 32. split; [vm_compute; discriminate | vm_compute; reflexivity]. Qed.
+
+(* non-vacuity: a scalar in range is marshalled *)
+Example serialize_key_ec_ok : serialize_key Fixed (Some REcdsaPriv) false true 12345 (256 ^ 32 - 1000) 32 = MAny.
+Proof. vm_compute. reflexivity. Qed.
 
 Lemma verify_eddsa_fixed_no_panic k i c r l : verify_eddsa Fixed k i c r l <> MPanic.
 Proof. unfold verify_eddsa. destruct k, i, c, r; cbn; try discriminate. destruct (l =? 32); discriminate. Qed.
